@@ -28,7 +28,23 @@ func (o c13Op) String() string {
 	return []string{"Append", "Remove", "Contains"}[o.kind] + fmt.Sprintf("(%d)", o.idx)
 }
 
-var c13Containers = []string{"CItemCollection", "CIRIs", "CCollection", "CCollectionPage", "COrdered", "COrderedPage"}
+// kinds 6-9 are the four collection types once more, with Remove (and the final reading) going through the view the
+// package hands out (OnItemCollection / ToItemCollection) instead of through the struct field
+var c13Containers = []string{"CItemCollection", "CIRIs", "CCollection", "CCollectionPage", "COrdered", "COrderedPage", "CCollection", "CCollectionPage", "COrdered", "COrderedPage"}
+var c13Labels = []string{"ItemCollection", "IRIs", "Collection", "CollectionPage", "OrderedCollection", "OrderedCollectionPage",
+	"Collection via OnItemCollection", "CollectionPage via OnItemCollection", "OrderedCollection via OnItemCollection", "OrderedCollectionPage via OnItemCollection"}
+
+func c13ViewBox(c ap.Item, app func(ap.Item), has func(ap.Item) bool, count func() uint) c13Box {
+	return c13Box{app, has,
+		func(x ap.Item) {
+			_ = ap.OnItemCollection(c, func(col *ap.ItemCollection) error { col.Remove(x); return nil })
+		},
+		count,
+		func() (out ap.ItemCollection) {
+			_ = ap.OnItemCollection(c, func(col *ap.ItemCollection) error { out = *col; return nil })
+			return out
+		}}
+}
 
 // a container under test: the calls the property names, on the real types
 type c13Box struct {
@@ -57,9 +73,21 @@ func c13New(kind int) c13Box {
 	case 4:
 		c := new(ap.OrderedCollection)
 		return c13Box{func(x ap.Item) { _ = c.Append(x) }, func(x ap.Item) bool { return c.Contains(x) }, func(x ap.Item) { c.OrderedItems.Remove(x) }, c.Count, func() ap.ItemCollection { return c.Collection() }}
-	default:
+	case 5:
 		c := new(ap.OrderedCollectionPage)
 		return c13Box{func(x ap.Item) { _ = c.Append(x) }, func(x ap.Item) bool { return c.Contains(x) }, func(x ap.Item) { c.OrderedItems.Remove(x) }, c.Count, func() ap.ItemCollection { return c.Collection() }}
+	case 6:
+		c := new(ap.Collection)
+		return c13ViewBox(c, func(x ap.Item) { _ = c.Append(x) }, func(x ap.Item) bool { return c.Contains(x) }, c.Count)
+	case 7:
+		c := new(ap.CollectionPage)
+		return c13ViewBox(c, func(x ap.Item) { _ = c.Append(x) }, func(x ap.Item) bool { return c.Contains(x) }, c.Count)
+	case 8:
+		c := new(ap.OrderedCollection)
+		return c13ViewBox(c, func(x ap.Item) { _ = c.Append(x) }, func(x ap.Item) bool { return c.Contains(x) }, c.Count)
+	default:
+		c := new(ap.OrderedCollectionPage)
+		return c13ViewBox(c, func(x ap.Item) { _ = c.Append(x) }, func(x ap.Item) bool { return c.Contains(x) }, c.Count)
 	}
 }
 
@@ -118,7 +146,7 @@ func c13Run(kind int, pool []ap.Item, ops []c13Op) (tr c13Trace) {
 }
 
 func runC13(seed int64, n int, tier string, outDir string) (*Report, error) {
-	rep := &Report{Rule: "histories of Append/Remove/Contains over a pool of 5 items of pairwise distinct identity (IRI, *Object, *Actor, *Activity, Object value) on the six containers: natively exhaustive up to a length bound (3 quick, 4 thorough) and random up to length 40; a sample of them plus histories over an odd pool (equivalent ids, link, id-less object, nested list) go through Coq; non-trivial = history holds an Append and a Remove or Contains; distinct by container and history"}
+	rep := &Report{Rule: "histories of Append/Remove/Contains over a pool of 5 items of pairwise distinct identity (IRI, *Object, *Actor, *Activity, Object value) on the six containers (the four collection types a second time with Remove going through OnItemCollection): natively exhaustive up to a length bound (3 quick, 4 thorough) and random up to length 40; a sample of them plus histories over an odd pool (equivalent ids, link, id-less object, nested list) go through Coq; non-trivial = history holds an Append and a Remove or Contains; distinct by container and history"}
 	g := NewGen(seed, "C13")
 	pool, odd := c13Pool(), c13OddPool()
 	poolDef := func(p []ap.Item) string {
@@ -161,7 +189,7 @@ func runC13(seed int64, n int, tier string, outDir string) (*Report, error) {
 		tr := c13Run(kind, pool, ops)
 		rep.Evaluations++
 		fail := func(step int, want, got string) {
-			rep.Violate(Violation{Op: c13Containers[kind] + " history", Input: fmt.Sprint(ops[:step+1]), Expected: want, Observed: got, Index: idx})
+			rep.Violate(Violation{Op: c13Labels[kind] + " history", Input: fmt.Sprint(ops[:step+1]), Expected: want, Observed: got, Index: idx})
 		}
 		if tr.panic != "" {
 			fail(len(ops)-1, "no panic", "panic: "+tr.panic)
@@ -253,10 +281,10 @@ func runC13(seed int64, n int, tier string, outDir string) (*Report, error) {
 	rec = func(kind int, prefix []c13Op) {
 		if len(prefix) > 0 {
 			tr := check(kind, prefix)
-			rep.Distinguish(c13Containers[kind]+fmt.Sprint(prefix), nontrivial(prefix))
+			rep.Distinguish(c13Labels[kind]+fmt.Sprint(prefix), nontrivial(prefix))
 			rep.Count(fmt.Sprintf("exhaustive-len:%d", len(prefix)))
 			if tr.panic == "" && (tier == "thorough" && len(prefix) <= 3 && idx%7 == 0 || len(prefix) <= 2 && idx%5 == 0) {
-				cw.Add(term(kind, prefix, tr), fmt.Sprintf("exhaustive %s %v", c13Containers[kind], prefix))
+				cw.Add(term(kind, prefix, tr), fmt.Sprintf("exhaustive %s %v", c13Labels[kind], prefix))
 			}
 			idx++
 		}
@@ -279,7 +307,7 @@ func runC13(seed int64, n int, tier string, outDir string) (*Report, error) {
 			ops[j] = c13Op{[]int{0, 0, 1, 2}[g.Intn(4)], g.Intn(len(pool))}
 		}
 		tr := check(kind, ops)
-		rep.Distinguish(c13Containers[kind]+fmt.Sprint(ops), nontrivial(ops))
+		rep.Distinguish(c13Labels[kind]+fmt.Sprint(ops), nontrivial(ops))
 		rep.Count("random")
 		if tr.panic == "" {
 			t := term(kind, ops, tr)
